@@ -10,8 +10,20 @@ Streams
                not, block sizes, empty chunks) x If-Range x method -> status, Content-Range,
                Content-Length, body; vs Model.Conditional.respond; oracle: the property statement
                computed by an independent reference from the structured range spec.
+               A quarter of the cases vary the argument forms of make_conditional (accept_ranges
+               False / True / 'bytes' / another unit / '', complete_length None, Request object
+               instead of environ) - driver command `mcf`.
+  sendfile     utils.send_file end to end on real files (paths, BytesIO, seekable and non-seekable
+               file objects, sizes around the 8192-byte block): a first plain GET hands out the
+               validators (generated ETag, Last-Modified from mtime), the file may change (mtime
+               and/or size), a second request revalidates (If-None-Match / If-Modified-Since) or asks
+               for ranges (with If-Range); vs Model.Conditional.sendFile; oracle: stale validators
+               never give 304 / a range of the old version, current ones always do, 206 bodies are
+               the bytes of the current file.
   parsers      hostile text for parse_etags / parse_range_header / unquote_etag /
                range_for_length vs the model (no oracle: crash-safety is C07's claim).
+Entity tags whose text looks like syntax (`*`, `W/`, `,` ...) are generated quoted on every header
+(If-None-Match, If-Match, If-Range, ETag): only the bare `*` is the wildcard (seeded change C11-c1).
 """
 from __future__ import annotations
 
@@ -21,10 +33,12 @@ import re
 from datetime import datetime, timedelta, timezone
 
 from harness.pyprelude import PreludeKernels
-from vlib.core import Check, Stream, b01, hs, hx, line, opt, out_list
+from vlib.core import Check, Stream, b01, hs, hx, line, opt, out_list, unhs
+from vlib.core import unhx as unhx_
 
 T0 = 1767225600  # 2026-01-01T00:00:00Z
 BODY = b"0123456789"
+SHA1_BODY = __import__("hashlib").sha1(BODY).hexdigest()
 
 # --------------------------------------------------------------------------
 # rendering of structured header values
@@ -180,6 +194,10 @@ def ref_not_modified(case):
 
 
 TAGS = ["abc", "v1", "xyz", "a b", "0"]
+# entity tags whose *text* looks like header syntax: quoted, they are ordinary opaque tags (only the
+# bare `*` is the wildcard, only a `W/` outside the quotes marks weakness, only a `,` outside the
+# quotes separates) - family of seeded change C11-c1
+SYNTAX_TAGS = ["*", "**", "*/*", "W/", "w/", "W/x", "W/*", ",", "a,b", "a, b", ", ", " ", "'*'", "=", ";", "\\", "W/'*'", "*,v1", "v1,*"]
 GARBAGE_TAGS = ["??", '"unterminated', ",,", "W/", "'q'", '"a" "b"', " ", 'w/"', "abc\"", '"']
 # date look-alikes spelled like entity tags: parse_date (email.utils) accepts a quoted date, but
 # parse_if_range_header must read them as entity tags (31f8ea0)
@@ -226,6 +244,19 @@ class ConditionalStream(Stream):
             C(route="response", range="bytes=0-1", if_range={"raw": 'W/"Wed, 21 Oct 2015 07:28:00 GMT"'}, etag=None, lm=[1445412480, 0, 0], strict=False, accept_ranges=True, clen=10),
             C(route="response", range="bytes=0-1", if_range={"raw": '"Wed, 21 Oct 2015 07:28:00 GMT"'}, etag=["Wed, 21 Oct 2015 07:28:00 GMT", False], lm=[1445412481, 0, 0], strict=False, accept_ranges=True, clen=10),
             C(route="direct", ignore_if_range=False, range="bytes=0-1", if_range={"t": T0, "fmt": 0}, lm=[T0, 5, 0], inm={"tags": [["zzz", False]]}, strict=False),
+            # seeded change C11-c1: the quoted "*" is an ordinary entity tag, not the wildcard
+            C(inm={"tags": [["*", False]]}, etag=["v2", False]),
+            C(inm={"tags": [["v1", False], ["*", True]]}, etag=["v2", False], ims={"t": T0 - 5, "fmt": 0}, lm=[T0, 0, 0]),
+            C(im={"tags": [["*", False]]}, etag=["v2", False]),
+            C(inm={"tags": [["*", False]]}, etag=["*", False]),
+            C(inm={"tags": [["W/", False], [",", True]]}, etag=[",", False], method="HEAD"),
+            C(inm={"tags": [["a,b", False]]}, etag=["a", False], route="direct"),
+            C(im={"tags": [["W/x", False]]}, etag=["x", False]),
+            # Response.add_etag(): the generated tag (sha1 of the body), strong and weak
+            C(inm={"tags": [[SHA1_BODY, False]]}, etag=[SHA1_BODY, False], add_etag=True),
+            C(inm={"tags": [[SHA1_BODY, False]]}, etag=[SHA1_BODY, True], add_etag=True),
+            C(im={"tags": [[SHA1_BODY, False]]}, etag=[SHA1_BODY, True], add_etag=True),
+            C(inm={"tags": [["0" + SHA1_BODY[1:], False]]}, etag=[SHA1_BODY, False], add_etag=True),
         ]
 
     def rand_tags(self, rng, etag, grey):
@@ -237,6 +268,9 @@ class ConditionalStream(Stream):
         n = rng.choice([1, 1, 2, 3])
         pool = TAGS + ([""] if grey or rng.random() < 0.03 else [])
         tags = [[rng.choice(pool), rng.random() < 0.3] for _ in range(n)]
+        if rng.random() < 0.3:
+            for _ in range(rng.choice([1, 1, 2])):
+                tags[rng.randrange(n)][0] = rng.choice(SYNTAX_TAGS)
         if etag is not None and rng.random() < 0.5:
             tags[rng.randrange(n)][0] = etag[0]
         return {"tags": tags}
@@ -253,12 +287,37 @@ class ConditionalStream(Stream):
         base = lm[0] if lm is not None else T0
         return {"t": base + rng.choice([-86400, -2, -1, 0, 0, 0, 1, 2, 3600]), "fmt": rng.choice([0, 0, 1, 2, 3, 4])}
 
+    def exhaustive_cases(self):
+        """every list of one or two quoted tags over a pool of plain and syntax-looking tag texts
+        (strong and weak) x every response tag of the pool x If-None-Match / If-Match x GET / HEAD"""
+        pool = ["abc", "*", "W/", ",", "a,b"]
+        atoms = [[t, w] for t in pool for w in (False, True)]
+        lists = [[a] for a in atoms] + [[a, b] for a in atoms for b in atoms]
+        for tags in lists:
+            for et in atoms:
+                for hdr in ("inm", "im"):
+                    for method in ("GET", "HEAD"):
+                        yield self.C(**{hdr: {"tags": [list(t) for t in tags]}, "etag": list(et), "method": method, "style": len(tags) % 4})
+
+    def exhaustive(self, tier):
+        return tier == "thorough"
+
     def cases(self, rng, tier):
+        if tier == "thorough":
+            yield from self.exhaustive_cases()
         while True:
             grey = rng.random() < 0.2
             etag = None if rng.random() < 0.3 else [rng.choice(TAGS + ([""] if grey else [])), rng.random() < 0.3]
+            if etag is not None and rng.random() < 0.15:
+                etag[0] = rng.choice(SYNTAX_TAGS)
+            add_etag = etag is not None and rng.random() < 0.1
+            if add_etag:
+                # the tag Response.add_etag() generates: sha1 of the body (computed here with hashlib)
+                etag[0] = SHA1_BODY
             lm = None if rng.random() < 0.35 else [T0 + rng.choice([-1, 0, 0, 1, 7, 3600]), rng.choice([0, 0, 1, 500000, 999999]), rng.choice([None, 0, 60, -330])]
             c = {"route": rng.choice(["response", "response", "direct"]), "method": rng.choice(["GET", "GET", "GET", "HEAD", "POST"]), "etag": etag, "lm": lm, "inm": None, "im": None, "ims": None, "if_range": None, "range": None, "ignore_if_range": True, "accept_ranges": False, "clen": None, "style": rng.randrange(16), "strict": not grey}
+            if add_etag:
+                c["add_etag"] = True
             x = rng.random()
             if x < 0.45:
                 c["inm"] = self.rand_tags(rng, etag, grey)
@@ -266,6 +325,8 @@ class ConditionalStream(Stream):
                 c["im"] = self.rand_tags(rng, etag, grey)
             if grey and rng.random() < 0.3:
                 c["im"] = self.rand_tags(rng, etag, grey)
+            if etag is not None and etag[0] in SYNTAX_TAGS and any(c[k] is not None and "raw" in c[k] for k in ("inm", "im")):
+                c["strict"] = False  # unquoted garbage may spell a syntax-like tag text: no position taken
             if rng.random() < 0.55:
                 c["ims"] = self.rand_date(rng, lm)
             y = rng.random()
@@ -298,7 +359,9 @@ class ConditionalStream(Stream):
             lm = None if case["lm"] is None else lm_datetime(case["lm"])
             return "mod=" + b01(is_resource_modified(env, case["etag_h"], None, lm, ignore_if_range=case["ignore_if_range"]))
         r = Response(BODY)
-        if case["etag_h"] is not None:
+        if case.get("add_etag"):
+            r.add_etag(weak=case["etag"][1])
+        elif case["etag_h"] is not None:
             r.headers["ETag"] = case["etag_h"]
         if case["lm"] is not None:
             r.last_modified = lm_datetime(case["lm"])
@@ -468,6 +531,19 @@ class RangesStream(Stream):
             R(fl(0, 1), 6, (3, 3), if_range={"etag": ["old", False]}, etag=["abc", False]),
             R(fl(0, 1), 6, (3, 3), if_range={"t": T0, "fmt": 0}, lm=T0),
             R(fl(0, 1), 6, (3, 3), if_range={"t": T0 - 5, "fmt": 1}, lm=T0),
+            # F11g (known): the unquoted If-Range tag is re-parsed as a tag list
+            R(fl(0, 1), 6, (3, 3), if_range={"etag": ["*", False]}, etag=["abc", False]),
+            R(fl(0, 1), 6, (3, 3), if_range={"etag": ["xyz, abc", False]}, etag=["abc", False]),
+            R(fl(0, 1), 6, (3, 3), if_range={"etag": ["W/abc", False]}, etag=["abc", False]),
+            R(fl(0, 1), 6, (3, 3), if_range={"etag": [",", False]}, etag=["abc", False]),
+            # argument forms of make_conditional
+            dict(R(fl(0, 1), 6, (3, 3)), accept=False, clen="len", via="environ"),
+            dict(R(fl(0, 1), 6, (3, 3)), accept="", clen="len", via="request"),
+            dict(R(fl(0, 1), 6, (3, 3)), accept="bytes", clen="len", via="request"),
+            dict(R(fl(0, 1), 6, (3, 3)), accept="items", clen="len", via="environ"),
+            dict(R(fl(0, 1), 6, (3, 3)), accept=True, clen=None, via="environ"),
+            dict(R(fl(7, 9), 6, (3, 3)), accept="none", clen="len", via="request", kind="gen"),
+            dict(R({"raw": "bytes=a-b"}, 6, (6,)), accept=False, clen="len", via="environ"),
         ]
 
     def rand_spec(self, rng, n):
@@ -506,12 +582,21 @@ class RangesStream(Stream):
                 sizes.append(s)
                 left -= s
             c = self.R(spec, n, sizes, kind, rng.random() < 0.5, rng.choice([1, 2, 3, 4, 7, 16]), rng.choice(["GET"] * 6 + ["HEAD", "POST"]), style=rng.randrange(4))
+            if rng.random() < 0.25:
+                # the argument forms of make_conditional: accept_ranges False / True / a unit string,
+                # complete_length given or None, the request as environ or as Request object
+                c["accept"] = rng.choice([False, True, "bytes", "bytes", "items", "none", "", "Bytes"])
+                c["clen"] = rng.choice(["len", "len", "len", None])
+                c["via"] = rng.choice(["environ", "request"])
             if rng.random() < 0.2:
                 etag = ["abc", rng.random() < 0.2]
                 lm = T0
                 c["etag"], c["lm"] = etag, lm
                 y = rng.random()
-                if y < 0.3:
+                if y < 0.08:
+                    # an If-Range tag whose text looks like syntax (F11g: "*" / "a, b" are re-parsed)
+                    c["if_range"] = {"etag": [rng.choice(SYNTAX_TAGS + ["abc,xyz", "xyz, abc", "abc"]), False]}
+                elif y < 0.3:
                     c["if_range"] = {"etag": ["abc", False]}
                 elif y < 0.5:
                     c["if_range"] = {"etag": [rng.choice(["old", "xyz"]), False]}
@@ -582,8 +667,13 @@ class RangesStream(Stream):
             r.headers["ETag"] = render_tag(*case["etag"])
         if case["lm"] is not None:
             r.last_modified = datetime.fromtimestamp(case["lm"], timezone.utc)
+        target = env
+        if case.get("via") == "request":
+            from werkzeug.wrappers import Request
+
+            target = Request(env)
         try:
-            r.make_conditional(env, accept_ranges=True, complete_length=len(data))
+            r.make_conditional(target, accept_ranges=case.get("accept", True), complete_length=None if "clen" in case and case["clen"] is None else len(data))
         except RequestedRangeNotSatisfiable as e:
             cr = dict(e.get_headers(env)).get("Content-Range", "")
             return "416|" + (cr[len("bytes ") :] if cr.startswith("bytes ") else "?" + cr)
@@ -609,12 +699,29 @@ class RangesStream(Stream):
         seek = str(case["bufsize"]) if case["kind"] == "file" and case["seekable"] else "~"
         kind = {"list": 0, "gen": 1, "file": 2}[case["kind"]]
         body = out_list(hx(c) for c in chunks)
+        if "accept" in case:
+            if not text_dates_ok(case["if_range"]):
+                return None
+            from werkzeug.http import http_date
+
+            acc = case["accept"]
+            acc = "1" if acc is True else "0" if acc is False else "u" + hs(acc)
+            lmt = None if case["lm"] is None else http_date(datetime.fromtimestamp(case["lm"], timezone.utc))
+            return line("mcf", hs(case["method"]), opt(hs, h.get("Range")), opt(hs, h.get("If-Range")), "~", "~", "~", opt(hs, etag), opt(hs, lmt), "~" if case["clen"] is None else len(data), acc, body, seek, kind)
         if text_dates_ok(case["if_range"]):
             from werkzeug.http import http_date
 
             lmt = None if case["lm"] is None else http_date(datetime.fromtimestamp(case["lm"], timezone.utc))
             return line("respt", hs(case["method"]), opt(hs, h.get("Range")), opt(hs, h.get("If-Range")), "~", "~", "~", opt(hs, etag), opt(hs, lmt), len(data), "1", body, seek, kind)
         return line("resp", hs(case["method"]), opt(hs, h.get("Range")), opt(hs, h.get("If-Range")), opt(str, epoch_of(h.get("If-Range"))), "~", "~", "~", opt(hs, etag), opt(str, case["lm"]), len(data), "1", body, seek, kind)
+
+    def canon_model(self, case, out):
+        if "accept" not in case or out.startswith("416"):
+            return out.rsplit("|", 1)[0] if "accept" in case else out
+        f = out.split("|")
+        hdr = f.pop()
+        f[4] = "0" if hdr == "~" else ("1" if unhs(hdr) == "bytes" else "?" + unhs(hdr))
+        return "|".join(f)
 
     # -- oracle ----------------------------------------------------------
 
@@ -665,9 +772,14 @@ class RangesStream(Stream):
             return want_full("a non-GET request")
         if case["spec"] is None:
             return want_full("a request without Range")
+        if "accept" in case and (not case["accept"] or case["clen"] is None):
+            return want_full("a response that does not accept ranges / has no known length")
         verdict = self.if_range_verdict(case)
         if verdict == "fail":
-            return want_full("a failed If-Range")
+            what = want_full("a failed If-Range")
+            if what is not None and self.is_f11g(case, f):
+                return "[ifrange-reparse] " + what
+            return what
         spec = case["spec"]
         cls = None
         if "raw" in spec:
@@ -697,11 +809,18 @@ class RangesStream(Stream):
                 return f"206 body {body!r} is not bytes [{a},{b}) = {data[a:b]!r} (Content-Range {f[1]})"
             if case["method"] == "HEAD" and body != b"":
                 return "HEAD response carries a body"
-        if verdict == "unclear":
+        if verdict == "unclear" or (isinstance(case.get("accept"), str) and case["accept"] != "bytes"):
+            # (a response advertising another range unit: whether byte ranges are then served is not
+            # the property's business - werkzeug does serve them, see accept_unit_string_serves_bytes)
             return None if code in ("200", "206", "416") else f"status {code}"
         if n == 0:
             if code == "200" and cls in ("unsatisfiable", "unparsable", "multi"):
-                return "[len0] " + f"status 200 for an {cls} range on an empty resource (416 expected)"
+                what = f"status 200 for an {cls} range on an empty resource (416 expected)"
+                # known finding F11f is exactly: the Range header is *ignored* on an empty resource -
+                # the plain complete (empty) 200 response, no Content-Range, no Accept-Ranges
+                if body == b"" and f[1] == "~" and f[2] in ("0", "~") and f[4] == "0":
+                    return "[len0] " + what
+                return what
             return None if code in ("200", "416") else f"status {code}"
         if cls in ("unparsable", "multi", "unsatisfiable"):
             if code != "416":
@@ -721,9 +840,35 @@ class RangesStream(Stream):
             return f"206 range [{a},{b}) is not inside the requested [{ra},{rb})"
         return None
 
+    def is_f11g(self, case, f):
+        """the specific shape of known finding F11g: a strong If-Range entity tag whose text, taken
+        *without its quotes* as a header list, has the wildcard `*` (or `W/*`) as an entry or is a
+        comma-separated list with the response's (strong) tag among its entries - and the outcome is exactly the 206 an If-Range that
+        validates would have produced (same Content-Range / body as without If-Range)"""
+        ir, et = case["if_range"], case["etag"]
+        if not ir or "etag" not in ir or et is None or ir["etag"][1] or et[1]:
+            return False
+        ie, e = ir["etag"][0], et[0]
+        if ie == e:
+            return False
+        if '"' in ie:
+            return False
+        pieces = [p.strip() for p in ie.split(",")]
+        unweak = [p[2:] if p[:2] in ("W/", "w/") else p for p in pieces]
+        wildcard = "*" in unweak
+        listed = len(pieces) > 1 and any(p == e and p[:2] not in ("W/", "w/") for p in pieces)
+        if not (wildcard or listed):
+            return False
+        # ... and the outcome is exactly what the same request *without* If-Range gets
+        from vlib.core import real_out as run_real
+
+        return run_real(self, dict(case, if_range=None)) == "|".join(f)
+
     def finding_key(self, case, what):
         if what.startswith("[len0] "):
             return "F11f"
+        if what.startswith("[ifrange-reparse] "):
+            return "F11g"
         return None
 
     def nontrivial(self, case, real_out):
@@ -740,17 +885,384 @@ class RangesStream(Stream):
             yield dict(case, if_range=None)
 
 
+
+# --------------------------------------------------------------------------
+# send_file: validators generated from the file, revalidation after changes, ranges over files
+
+SF_DIR = "/var/tmp/wzverif-c11"
+SF_SIZES = [0, 1, 2, 6, 6, 10, 10, 33, 100, 8191, 8192, 8193, 16385]
+
+
+def sf_content(n, seed):
+    return bytes((seed * 31 + i * 7 + (i >> 8)) % 251 for i in range(n))
+
+
+class SendFileStream(Stream):
+    """utils.send_file end to end: a first plain GET yields the validators the server hands out
+    (generated ETag = mtime-size-adler32(path), Last-Modified = mtime); the file may then change
+    (mtime and/or size); a second request carries validators / ranges. Model: Cond.sendFile."""
+
+    name = "sendfile"
+
+    def __init__(self):
+        def F(n=10, src="path", mtime=T0 + 0.25, etag=True, last_modified=None, conditional=True, method="GET", req="none", rng_spec=None, change=None, seed=1, max_age=None):
+            return {"n": n, "seed": seed, "src": src, "mtime": mtime, "etag": etag, "last_modified": last_modified, "conditional": conditional, "method": method, "req": req, "range": rng_spec, "change": change, "max_age": max_age}
+
+        self.F = F
+        fl = lambda a, b: {"items": [{"k": "fl", "first": a, "last": b}]}  # noqa: E731
+        self.corpus = [
+            F(),
+            F(req="inm"),
+            F(req="inm", change="mtime+1"),
+            F(req="inm", change="size"),
+            F(req="inm", change="mtime+frac"),
+            F(req="ims"),
+            F(req="ims", change="mtime+1"),
+            F(req="ims", change="mtime+frac"),
+            F(req="inm", method="HEAD"),
+            F(req="inm", method="POST"),
+            F(req="inm", conditional=False),
+            F(req="range", rng_spec=fl(2, 4)),
+            F(req="range", rng_spec=fl(2, 4), src="bytesio"),
+            F(req="range", rng_spec=fl(2, 4), src="fileobj"),
+            F(req="range", rng_spec=fl(2, 4), src="noseek"),
+            F(req="range", rng_spec=fl(2, 4), conditional=False),
+            # seeded change C11-c2: seekable file, start > 0, stop < length, short first block
+            F(n=16385, req="range", rng_spec=fl(8190, 8200)),
+            F(n=16385, req="range", rng_spec=fl(10000, 10999)),
+            F(n=8193, req="range", rng_spec={"items": [{"k": "sfx", "n": 2}]}),
+            F(req="range+ifr-etag", rng_spec=fl(1, 3)),
+            F(req="range+ifr-etag", rng_spec=fl(1, 3), change="mtime+1"),
+            F(req="range+ifr-date", rng_spec=fl(1, 3)),
+            F(req="range+ifr-date", rng_spec=fl(1, 3), change="mtime+1"),
+            F(req="range", rng_spec=fl(20, 30)),
+            F(req="range", rng_spec={"raw": "bytes=a-b"}),
+            F(req="inm", etag="custom-1"),
+            F(req="inm", etag="custom-1", change="mtime+1"),
+            F(req="inm", etag=False),
+            F(req="ims", last_modified=T0 - 100),
+            F(req="inm", etag='a"b'),
+            F(n=0, req="range", rng_spec=fl(0, 1)),
+            F(req="inm", max_age=60),
+            F(req="ims", max_age=0),
+            F(req="range", rng_spec=fl(2, 4), max_age=-5),
+            F(req="none", max_age=["callable", 7]),
+            F(req="none", max_age=["callable", None]),
+        ]
+
+    def cases(self, rng, tier):
+        limit = 260 if tier == "quick" else 4000
+        rs = RangesStream()
+        for _ in range(limit):
+            n = rng.choice(SF_SIZES)
+            req = rng.choice(["none", "inm", "inm", "ims", "ims", "range", "range", "range", "range+ifr-etag", "range+ifr-date", "inm+range"])
+            spec = None
+            if "range" in req:
+                if n > 1000 and rng.random() < 0.8:
+                    a = rng.choice([0, 1, 100, 8190, 8191, 8192, 8193, n - 2, n - 1])
+                    a = max(0, min(a, n - 1))
+                    b = min(n + 3, a + rng.choice([0, 1, 2, 100, 8192, 9000]))
+                    spec = rng.choice([{"items": [{"k": "fl", "first": a, "last": b}]}, {"items": [{"k": "f", "first": a}]}, {"items": [{"k": "sfx", "n": max(1, n - a)}]}])
+                else:
+                    spec = rs.rand_spec(rng, n)
+            etag = rng.choice([True, True, True, True, False, "v1", "custom tag", "*", 'a"b'])
+            yield self.F(
+                n=n,
+                src=rng.choice(["path", "path", "path", "bytesio", "fileobj", "noseek"]),
+                mtime=T0 + rng.choice([0, 5, 3600]) + rng.choice([0.0, 0.25, 0.5, 0.875]),  # dyadic: exact in ns and as float
+                etag=etag,
+                last_modified=rng.choice([None, None, None, T0 - 100, T0 + 7]),
+                conditional=rng.random() < 0.9,
+                method=rng.choice(["GET"] * 6 + ["HEAD", "POST"]),
+                req=req,
+                rng_spec=spec,
+                change=rng.choice([None, None, None, "mtime+1", "mtime+frac", "size", "mtime-1", "size+mtime"]),
+                seed=rng.randrange(1, 200),
+                max_age=rng.choice([None, None, None, 0, 60, 3600, -5, ["callable", 7], ["callable", None]]),
+            )
+
+    # -- real ------------------------------------------------------------
+
+    def _open(self, case, path, data):
+        src = case["src"]
+        if src == "path":
+            return path
+        if src == "bytesio":
+            return io.BytesIO(data)
+        if src == "fileobj":
+            return open(path, "rb")
+        return NoSeekFile(data)
+
+    def _send(self, case, path, data, headers):
+        from werkzeug.test import EnvironBuilder
+        from werkzeug.utils import send_file
+
+        env = EnvironBuilder(method=case["method"], headers=headers).get_environ()
+        kw = {}
+        if case["src"] != "path":
+            kw["mimetype"] = "application/octet-stream"
+        lm = case["last_modified"]
+        src = self._open(case, path, data)
+        try:
+            ma = case.get("max_age")
+            if isinstance(ma, list):
+                ma = (lambda v: (lambda p: v))(ma[1])
+            rv = send_file(src, env, etag=case["etag"], last_modified=lm, conditional=case["conditional"], max_age=ma, **kw)
+        except Exception:
+            if hasattr(src, "close"):
+                src.close()
+            raise
+        return env, rv
+
+    def versions(self, case):
+        """(content, mtime) before and after the change"""
+        n, mt = case["n"], case["mtime"]
+        d1 = sf_content(n, case["seed"])
+        ch = case["change"]
+        if ch is None:
+            return (d1, mt), (d1, mt)
+        n2 = n + 1 if "size" in ch else n
+        d2 = sf_content(n2, case["seed"] + 1)
+        mt2 = mt
+        if "mtime+1" in ch or ch == "size+mtime":
+            mt2 = float(int(mt) + 1) + (mt - int(mt))
+        elif ch == "mtime+frac":
+            mt2 = mt + 0.001953125 if mt - int(mt) < 0.99 else mt - 0.001953125  # 2**-9 s, same second
+        elif ch == "mtime-1":
+            mt2 = mt - 1
+        return (d1, mt), (d2, mt2)
+
+    def real(self, case):
+        import os
+
+        from werkzeug.exceptions import RequestedRangeNotSatisfiable
+
+        os.makedirs(SF_DIR, exist_ok=True)
+        path = os.path.join(SF_DIR, f"f-{os.getpid()}.bin")
+        (d1, mt1), (d2, mt2) = self.versions(case)
+        with open(path, "wb") as f:
+            f.write(d1)
+        os.utime(path, (mt1, mt1))
+        try:
+            # first visit: a plain GET hands out the validators
+            env0, rv0 = self._send(dict(case, method="GET"), path, d1, {})
+            etag0, lm0 = rv0.headers.get("ETag"), rv0.headers.get("Last-Modified")
+            rv0.close()
+            with open(path, "wb") as f:
+                f.write(d2)
+            os.utime(path, (mt2, mt2))
+            h = {}
+            req = case["req"]
+            if "inm" in req and etag0 is not None:
+                h["If-None-Match"] = etag0
+            if "ims" in req and lm0 is not None:
+                h["If-Modified-Since"] = lm0
+            if "range" in req and case["range"] is not None:
+                h["Range"] = render_range(case["range"])
+            if "ifr-etag" in req and etag0 is not None:
+                h["If-Range"] = etag0
+            if "ifr-date" in req and lm0 is not None:
+                h["If-Range"] = lm0
+            try:
+                env, rv = self._send(case, path, d2, h)
+            except RequestedRangeNotSatisfiable as e:
+                cr = dict(e.get_headers({})).get("Content-Range", "")
+                return "416|" + (cr[len("bytes ") :] if cr.startswith("bytes ") else "?" + cr)
+            app_iter, status, hdrs = rv.get_wsgi_response(env)
+            hdrs = {k.lower(): v for k, v in hdrs}
+            body = b"".join(bytes(c) for c in app_iter)
+            if hasattr(app_iter, "close"):
+                app_iter.close()
+            code = status.split()[0]
+            cr = hdrs.get("content-range")
+            if cr is not None:
+                m = re.fullmatch(r"bytes (-?\d+)-(-?\d+)/(-?\d+)", cr)
+                cr = f"{m.group(1)}-{m.group(2)}/{m.group(3)}" if m else "?" + cr
+            ar = hdrs.get("accept-ranges")
+            ar = "0" if ar is None else ("1" if ar == "bytes" else "?" + ar)
+            return "|".join([code, opt(str, cr), opt(str, hdrs.get("content-length")), hx(body), ar, opt(hs, hdrs.get("etag")), opt(hs, hdrs.get("last-modified")), opt(hs, hdrs.get("cache-control")), b01("expires" in hdrs)])
+        finally:
+            try:
+                os.unlink(path)
+            except OSError:
+                pass
+
+    def model_line(self, case):
+        import os
+        import zlib
+
+        # the request headers are those the real first visit handed out; they are recomputed here
+        # independently: ETag "<repr(mtime)>-<size>-<adler32(path)>", Last-Modified = http_date(mtime)
+        from werkzeug.http import http_date
+
+        (d1, mt1), (d2, mt2) = self.versions(case)
+        path = os.path.join(SF_DIR, f"f-{os.getpid()}.bin")
+        is_path = case["src"] == "path"
+        check = zlib.adler32(path.encode()) & 0xFFFFFFFF
+
+        def etag_of(d, mt):
+            e = case["etag"]
+            if isinstance(e, str):
+                return None if '"' in e else f'"{e}"'
+            return f'"{mt}-{len(d)}-{check}"' if (e and is_path) else None
+
+        def lm_of(mt):
+            if case["last_modified"] is not None:
+                return http_date(case["last_modified"])
+            return http_date(mt) if is_path else None
+
+        if isinstance(case["etag"], str) and '"' in case["etag"]:
+            return None  # the first visit already raises ValueError (checked by the oracle)
+        etag0, lm0 = etag_of(d1, mt1), lm_of(mt1)
+        req = case["req"]
+        inm = etag0 if "inm" in req else None
+        ims = lm0 if "ims" in req else None
+        rng_h = render_range(case["range"]) if "range" in req and case["range"] is not None else None
+        ifr = etag0 if "ifr-etag" in req else (lm0 if "ifr-date" in req else None)
+        if not ascii_clean(rng_h):
+            return None
+        size = len(d2) if case["src"] in ("path", "bytesio") else None
+        sec = int(mt2 // 1)
+        micro = int(round((mt2 - sec) * 1e6))
+        e = case["etag"]
+        ma = case.get("max_age")
+        if isinstance(ma, list):
+            ma = ma[1]
+        earg = "A" if e is True else "O" if e is False else "g" + hs(e)
+        lmarg = None if case["last_modified"] is None else case["last_modified"] + ORIGIN
+        return line("sendfile", hs(case["method"]), opt(hs, rng_h), opt(hs, ifr), opt(hs, ims), opt(hs, inm), "~", b01(is_path), opt(str, size), opt(str, sec + ORIGIN if is_path else None), micro if is_path else 0, hs(str(mt2)), check, earg, opt(str, lmarg), b01(case["conditional"]), hx(d2), b01(case["src"] != "noseek"), opt(str, ma))
+
+    def canon_model(self, case, out):
+        # model: status|CR|CL|body|AR|etag|lm-instant ; real adds the handed-out validators, which the
+        # model line was built from: compare the response part, the ETag header and Last-Modified
+        from werkzeug.http import http_date
+
+        f = out.split("|")
+        if f[0] == "416":
+            return "|".join(f[:2])
+        if f[0] == "206":
+            f[3] = "".join("" if x in ("[]", "-") else x for x in f[3].split(",")) or "-"
+        lm = f[6]
+        # a 304 is stripped of its entity headers (Last-Modified among them) by get_wsgi_headers
+        f[6] = "~" if lm == "~" or f[0] == "304" else hs(http_date(int(lm) - ORIGIN))
+        return "|".join(f)
+
+    # -- oracle ----------------------------------------------------------
+
+    def oracle(self, case, real_out):
+        if isinstance(case["etag"], str) and '"' in case["etag"]:
+            return None if real_out == "EXC:ValueError" else f"an entity tag containing a quote was accepted: {real_out[:60]}"
+        if real_out.startswith("EXC"):
+            return f"raised {real_out}"
+        (d1, mt1), (d2, mt2) = self.versions(case)
+        f = real_out.split("|")
+        code = f[0]
+        n = len(d2)
+        full = b"" if case["method"] == "HEAD" else d2
+        body = None if code == "416" else unhx_(f[3])
+        req, ch = case["req"], case["change"]
+        sized = case["src"] in ("path", "bytesio")
+
+        def want_full(why):
+            if code != "200":
+                return f"status {code} for {why} (complete 200 body expected)"
+            if body != full:
+                return f"200 body of {len(body)} bytes is not the complete current file ({why})"
+            if f[2] != "~" and f[2] != str(n):
+                return f"Content-Length {f[2]} is not the length of the current file ({n}) ({why})"
+            return None
+
+        if code == "206":
+            m = re.fullmatch(r"(-?\d+)-(-?\d+)/(-?\d+)", f[1]) if f[1] != "~" else None
+            if not m:
+                return f"206 without a well-formed Content-Range ({f[1]})"
+            a, b, total = int(m.group(1)), int(m.group(2)) + 1, int(m.group(3))
+            if not (0 <= a < b <= n) or total != n:
+                return f"Content-Range {f[1]} is not inside the current file of length {n}"
+            if f[2] != str(b - a):
+                return f"Content-Length {f[2]} does not match Content-Range {f[1]}"
+            if case["method"] == "GET" and body != d2[a:b]:
+                return f"206 body ({len(body)} bytes) is not bytes [{a},{b}) of the current file"
+            if case["method"] == "HEAD" and body != b"":
+                return "HEAD response carries a body"
+        if case["method"] not in ("GET", "HEAD") or not case["conditional"]:
+            return want_full("a non-GET request / conditional=False")
+        # did the representation change in a way the handed-out validators can see?
+        auto = case["etag"] is True and case["src"] == "path"
+        etag_sees = auto and ch is not None  # every change alters mtime text or size
+        lm_sees = case["last_modified"] is None and case["src"] == "path" and ch in ("mtime+1", "size+mtime")
+        has_etag = auto or isinstance(case["etag"], str)
+        has_lm = case["last_modified"] is not None or case["src"] == "path"
+        if "inm" in req and has_etag:
+            # the entity tag decides (precedence over the date)
+            if etag_sees:
+                if code == "304":
+                    return "304 although the file changed (mtime/size) since the ETag was handed out"
+            elif auto or ch is None:
+                return None if code == "304" else f"status {code} although If-None-Match carries the current ETag"
+            elif code == "304":
+                return None  # an application-supplied tag that did not change with the file: no position
+        elif "ims" in req and has_lm:
+            if lm_sees:
+                if code == "304":
+                    return "304 although the file's mtime moved to a later second"
+            else:
+                return None if code == "304" else f"status {code} although If-Modified-Since is not earlier than Last-Modified"
+        elif code == "304":
+            return "304 for a request without validators"
+        if "range" not in req or case["range"] is None:
+            return want_full("a request without Range")
+        if not sized:
+            return want_full("a file object of unknown size")
+        # If-Range
+        if "ifr-etag" in req and has_etag and etag_sees:
+            return want_full("an If-Range entity tag of the previous version")
+        if "ifr-date" in req and has_lm and lm_sees:
+            return want_full("an If-Range date of the previous version")
+        if ("ifr-etag" in req and has_etag and not (auto or ch is None)) or ("ifr-date" in req and has_lm and ch not in (None,)):
+            return None if code in ("200", "206", "416") else f"status {code}"
+        spec = case["range"]
+        if "raw" in spec or spec.get("unit", "bytes") != "bytes":
+            return None if code in ("200", "206", "416") else f"status {code}"
+        if n == 0:
+            return None if code in ("200", "416") else f"status {code}"
+        if len(spec["items"]) > 1 or any(it["k"] == "fl" and it["last"] < it["first"] for it in spec["items"]):
+            return None if code == "416" else f"status {code} for a multi-range / inverted Range (416 expected)"
+        it = spec["items"][0]
+        rq = requested(it, n)
+        if rq is None:
+            return None if code == "416" else f"status {code} for an unsatisfiable Range (416 expected)"
+        if code == "416" and it["k"] == "sfx" and it["n"] > n:
+            return None
+        if code != "206":
+            return f"status {code} for the satisfiable Range {render_range(spec)!r} (206 expected)"
+        if not (rq[0] <= a and b <= rq[1]):
+            return f"206 range [{a},{b}) is not inside the requested [{rq[0]},{rq[1]})"
+        return None
+
+    def nontrivial(self, case, real_out):
+        return real_out[:3] in ("206", "304")
+
+    def bucket(self, case, real_out):
+        return f"{case['src']}:{case['req']}:{case['change']}:{real_out.split('|')[0]}"
+
+    def mutate(self, case, rng):
+        if case["change"] is not None:
+            yield dict(case, change=None)
+        if case["n"] > 10:
+            yield dict(case, n=10)
+
 # --------------------------------------------------------------------------
 # parsers (model correspondence only)
 
-ETAG_TOK = ['"a"', 'W/"b"', "w/", '"', ",", " ", "*", "abc", '""', "\t", 'W/*', '"x,y"', ", ", '" "', "W/", "/", '"a"b"']
+ETAG_TOK = ['"a"', 'W/"b"', "w/", '"', ",", " ", "*", "abc", '""', "\t", 'W/*', '"x,y"', ", ", '" "', "W/", "/", '"a"b"', '"*"', 'W/"*"', '"W/"', '","']
 RANGE_TOK = ["bytes", "=", "-", ",", "0", "1", "5", "9", "10", " ", "\t", "a", "+", "_", "99999999999999999999", "--", "items", "BYTES", "-0", "00"]
 
 
 class ParserStream(Stream):
     name = "parsers"
     corpus = (
-        [{"fn": "petags", "v": v} for v in ["", "*", '"a", W/"b"', 'W/"a"', '""', "a, b", '"a" , "b",', '"a"b", "c"', "W/*", ' "a"', '"a" ', "w/x", '"unterminated', ",", ", ,"]]
+        [{"fn": "petags", "v": v} for v in ["", "*", '"*"', 'W/"*"', '"a", "*"', '"*", "a"', '"*" , W/"*"', '"*', '*"', '"a", W/"b"', 'W/"a"', '""', "a, b", '"a" , "b",', '"a"b", "c"', "W/*", ' "a"', '"a" ', "w/x", '"unterminated', ",", ", ,"]]
         + [{"fn": "prange", "v": v} for v in RAW_RANGES + ["bytes=0-1", "bytes=-5", "bytes=5-", "bytes=0-0,2-3,5-"]]
         + [{"fn": "unquote", "v": v} for v in ['"a"', 'W/"a"', "a", '"', 'W/"', " W/a ", '""', "w/", 'W/"a']]
         + [{"fn": "rfl", "v": v, "n": n} for v in ["bytes=0-1", "bytes=-3", "bytes=4-", "bytes=-0", "bytes=-9", "items=0-1", "bytes=0-0,1-1"] for n in (None, 0, 1, 5)]
@@ -829,14 +1341,18 @@ class ParserStream(Stream):
 
 CHECK = Check(
     prop="C11",
-    gen=["RangeTbl", "PyFns_Internal", "PyFns_Range"],
-    modules=["WzVerif.Props.C11", "WzVerif.Props.C11T"],
-    streams=[ConditionalStream(), RangesStream(), ParserStream(), PreludeKernels()],
+    gen=["RangeTbl", "EtagTbl", "CondConsts", "PyFns_Internal", "PyFns_Range", "Http", "PyFns_Http", "PyFns_HttpDict", "PyFns_Etag", "PyFns_Response"],
+    modules=["WzVerif.Props.C11", "WzVerif.Props.C11T", "WzVerif.Props.C11T2"],
+    streams=[ConditionalStream(), RangesStream(), SendFileStream(), ParserStream(), PreludeKernels()],
     assumptions=[
+        "round 3 (Props/C11T2): is_resource_modified (sansio/http.py), parse_etags (http.py) and the ETags class (__init__, is_weak, is_strong, contains, contains_weak, __bool__; datastructures/etag.py) are regenerated from the source by tools/py2lean.py (Gen/PyFns_Etag.lean) on every run; the translated call tree - is_resource_modified calling the translated parse_if_range_header, unquote_etag, parse_etags and ETags methods - is proved equal to the hand model isResourceModified for all inputs without line feeds in the three entity-tag headers (parse_etags does not terminate on a text ending in LF: parse_etags_lf_spins in Props/C06T2, replayed on CPython; such a value cannot arrive through WSGI). Opaque / hand-modelled on that route: parse_date, the regex _etag_re (C06's model etagMatch), datetime comparison (instants as (seconds, microseconds)), frozenset as a duplicate-free list",
         "parse_date (email.utils): for IMF-fixdate text (what http_date produces) the driver parses the header itself with the C06 date model (Model/Date.lean, date_roundtrip), nothing is opaque; for other notations (offsets, asctime, garbage) the harness supplies the parsed instant as integer epoch seconds (opaque parameter); datetime comparison = comparison of the instants after flooring last_modified to whole seconds",
         "a FileWrapper over a file object yields blocks of at most buffer_size bytes and never an empty block; seek/tell of the underlying file behave like io.BytesIO (validated by stream ranges)",
         "str.lower()/strip() are modelled for ASCII header text without line feeds (WSGI header values); other text is checked by the oracle only",
-        "_etag_re, _plain_int_re and the split/strip calls of parse_range_header are hand-modelled and validated by streams parsers / ranges",
+        "_etag_re, _plain_int_re and the split/strip calls of parse_range_header are hand-modelled and validated by streams parsers / ranges; the live parse_etags is additionally evaluated over ~2100 small header texts (all texts of length <= 3 over the alphabet \"*W/, a; a pool of syntax-looking tags alone, in pairs and triples) into Gen/EtagTbl.lean and compared with the model by decide (etag_table_agrees); the pattern and flags of _etag_re are pinned (etag_re_pinned)",
+        "send_file: os.stat / utime, repr(float mtime) and adler32(path) are opaque inputs of the model (the harness computes them independently of werkzeug); the model builds the tag text, the Last-Modified instant (mtime floored to seconds) and hands both to the make_conditional model; files are real files under /var/tmp/wzverif-c11",
+        "constants of the glue (environ keys per argument, GET/HEAD, 412/304/206, the arguments of the is_resource_modified and make_conditional calls, the generated-tag format, the 8192-byte block) are read from the AST / live objects into Gen/CondConsts.lean and pinned by decide (cond_constants_pinned)",
+        "known finding F11g: an If-Range entity tag is handed unquoted to parse_etags, so the tag texts * (W/*) and comma lists are re-interpreted; if_range_etag_partial excludes exactly those, if_range_etag_full_false is the witness",
         "is_byte_range_valid, Range.range_for_length, Range.__init__, parse_range_header, unquote_etag, IfRange.__init__, parse_if_range_header (parse_date opaque) and _plain_int are regenerated from the source by tools/py2lean.py (Gen/PyFns_Range.lean, Gen/PyFns_Internal.lean) on every run and proved equal to the hand model for all inputs, including that they never raise (Props/C11T); the CPython primitives the translated code calls are modelled in Util/PyPrelude.lean and validated by stream prelude-kernels",
     ],
     trusted_extra=["CPython re / str / datetime / io semantics for the modelled primitives (validated by the streams, not verified)"],
@@ -845,8 +1361,8 @@ CHECK = Check(
 )
 
 MANIFEST = {
-    "level_text": "Machine-checked Lean 4 theorems about an executable model of is_resource_modified, parse_range_header, Range.range_for_length, is_byte_range_valid (compared with the live function over a cube by decide), Response.make_conditional / _process_range_request and wsgi._RangeWrapper: the not-modified condition is characterised exactly, range_for_length is sound, and the range wrapper is proved to emit exactly body[start:start+len] for every chunking of the body (including empty chunks) on both the iterator and the seekable-file path; the model is tied to the code by three differential streams and the property oracle (independent reference) runs on the real code.",
-    "level_note": "Trusted: Lean kernel; extract.py; the correspondence harness; CPython re/str/datetime/io for modelled primitives; parse_date is modelled for IMF-fixdate text (C06's date model) and an opaque parameter for other notations. Known finding F11f (ranges on empty resources are ignored instead of 416).",
+    "level_text": "Machine-checked Lean 4 theorems about an executable model of is_resource_modified, parse_range_header, Range.range_for_length, is_byte_range_valid (compared with the live function over a cube by decide), Response.make_conditional / _process_range_request and wsgi._RangeWrapper: the not-modified condition is characterised exactly, range_for_length is sound, and the range wrapper is proved to emit exactly body[start:start+len] for every chunking of the body (including empty chunks) on both the iterator and the seekable-file path; on header TEXT the 304 / 412 decisions are characterised for every list of quoted entity tags through the model of _etag_re (a quoted \"*\" is an ordinary tag; the live parse_etags is compared with the model over a regenerated table by decide); every satisfiable first-last / open / suffix range is answered 206 with exactly the requested bytes for list, generator, seekable and non-seekable file bodies; the argument forms of make_conditional and utils.send_file (generated ETag, Last-Modified from mtime, conditional=True glue) are modelled and proved to reduce to the same decision procedure; the model is tied to the code by four differential streams (one of them drives send_file on real files that change between requests) and the property oracle (independent reference) runs on the real code.",
+    "level_note": "Trusted: Lean kernel; extract.py; the correspondence harness; CPython re/str/datetime/io for modelled primitives; parse_date is modelled for IMF-fixdate text (C06's date model) and an opaque parameter for other notations; os.stat / float repr / adler32 are opaque inputs of the send_file model. Known findings F11f (ranges on empty resources are ignored instead of 416) and F11g (an If-Range entity tag whose text is * or a comma list is re-parsed as a tag list and validates).",
     "technique": "Lean 4 proof (induction over chunk lists, case analysis of the decision procedure, decide over a regenerated table) + model/code correspondence",
     "design_ref": "DESIGN.md section 4, C11",
 }
